@@ -38,6 +38,11 @@ def srcdir(label):
     return d, prop
 
 
+def patch_path(label):
+    d = srcdir(label)[0]
+    return d + "/patch.ported.diff" if os.path.exists(d + "/patch.ported.diff") else d + "/patch.diff"
+
+
 def demo_path(label):
     d = srcdir(label)[0]
     return d + "/demo_test.go" if os.path.exists(d + "/demo_test.go") else d + "/demonstration_test.go.txt"
@@ -54,9 +59,9 @@ def clone(label, patched):
     os.makedirs(SC, exist_ok=True)
     subprocess.run(["git", "clone", "-q", "/repo", d], check=True)
     if patched:
-        rc, out = sh("git apply %s/patch.diff" % srcdir(label)[0], d)
+        rc, out = sh("git apply %s" % patch_path(label), d)
         if rc != 0:
-            rc, out = sh("git apply -3 %s/patch.diff" % srcdir(label)[0], d)
+            rc, out = sh("git apply -3 %s" % patch_path(label), d)
         if rc != 0:
             raise RuntimeError("patch does not apply: " + out[-400:])
     return d
@@ -92,7 +97,7 @@ def confirm(label):
         res["demo_unpatched_rc"] = rc
         if rc != 0:
             res["demo_unpatched_tail"] = out[-600:]
-        rc, out = sh("git apply %s/patch.diff" % srcdir(label)[0], d)
+        rc, out = sh("git apply %s" % patch_path(label), d)
         if rc != 0:
             res["error"] = "patch does not apply: " + out[-300:]
             return res
@@ -160,7 +165,11 @@ def file_results():
         dst = os.path.join(OUT, lab)
         os.makedirs(dst, exist_ok=True)
         if src != dst:
-            shutil.copy(src + "/patch.diff", dst + "/patch.diff")
+            if os.path.exists(src + "/patch.ported.diff"):
+                shutil.copy(src + "/patch.ported.diff", dst + "/patch.diff")
+                shutil.copy(src + "/patch.diff", dst + "/patch.as-written.diff")
+            else:
+                shutil.copy(src + "/patch.diff", dst + "/patch.diff")
             shutil.copy(src + "/demo_test.go", dst + "/demonstration_test.go.txt")
             meta = json.load(open(src + "/meta.json"))
         else:
@@ -175,6 +184,8 @@ def file_results():
         meta["confirmed_by_me"] = {k: c.get(k) for k in ("demo_unpatched_rc", "build_rc", "demo_patched_rc", "suite_rc", "suite_fails")}
         meta["evaluation"] = {"runs": [{"check": r["prop"], "exit": r["rc"], "signatures": r.get("signatures", []), "verif_commit": r.get("verif"), "seconds": r.get("seconds")} for r in runs], "caught_by": caught,
                               "note": "each run: clone of /repo with patch.diff applied, VERIF_REPO=<clone> bin/check <check> --seconds N. Earlier runs with exit 0 are first-pass misses that led to a generator or oracle change (DESIGN.md 11.6)."}
+        if os.path.exists(dst + "/patch.as-written.diff"):
+            meta["ported"] = "patch.diff is the change re-applied by hand to the current /repo HEAD (a later fix: commit touches the same lines); patch.as-written.diff is the original"
         if lab in notes:
             meta["note"] = notes[lab]
         json.dump(meta, open(dst + "/meta.json", "w"), indent=1)
